@@ -137,9 +137,9 @@ def run(tier: str, opts: dict) -> int:
         dialects = opts["dialects"].split(",")
     C = sqlgen.CENTRES
     if tier == "quick":
-        plan = [("simple", C["simple"], D), ("join", C["join"], 2), ("derived", C["derived"], 1), ("cte", C["cte"], 1), ("star", C["star"], 1)]
+        plan = [("simple", C["simple"], D), ("join", C["join"], 2), ("derived", C["derived"], 1), ("cte", C["cte"], 1), ("star", C["star"], 1), ("setop", C["setop"], 1)]
     else:
-        plan = [("simple", C["simple"], D), ("join", C["join"], 3), ("derived", C["derived"], 2), ("cte", C["cte"], 2), ("star", C["star"], 2)]
+        plan = [("simple", C["simple"], D), ("join", C["join"], 3), ("derived", C["derived"], 2), ("cte", C["cte"], 2), ("star", C["star"], 2), ("setop", C["setop"], 2)]
     if "centres" in opts:
         plan = [p for p in plan if p[0] in opts["centres"].split(",")]
     cases, n_exec = enumerate_plan(plan, depth)
